@@ -55,6 +55,9 @@ def _rect_cov(m, K, slack_kind, tier="quick"):
             spec = z3.And(S.in_box(z, lo1, up1), S.in_box(zp, lo2, up2),
                           *[S.dot(w, S.vsub(S.vsub(zp, z), svec)) >= 0 for w in W])
             t.prove("constraints_are_spec#%d" % i, rec["constraints"] == spec, assumptions=rec["pc"][len(t.pre):])
+            # directions (C01 / C05 consume only "a covering pair of points makes the program feasible")
+            t.prove("complete/every_covering_pair_is_feasible_for_the_program#%d" % i, z3.Implies(spec, rec["constraints"]), assumptions=rec["pc"][len(t.pre):])
+            t.prove("sound/every_feasible_point_is_a_covering_pair#%d" % i, z3.Implies(rec["constraints"], spec), assumptions=rec["pc"][len(t.pre):])
             t.prove("two_variables_only#%d" % i, z3.BoolVal(len(vs) == 2 * m))
         # (2) the returned boolean is the solver's feasibility verdict for that program
         def goal(p):
@@ -123,6 +126,9 @@ def _ell_cov(m, K, slack_kind, tier="quick"):
             spec = z3.And(ell_member(E1, z, m), ell_member(E2, zp, m),
                           *[S.dot(W[k], S.vsub(zp, z)) >= V.R(sK[k]) for k in range(K)])
             t.prove("constraints_are_spec#%d" % i, rec["constraints"] == spec, assumptions=rec["pc"][len(t.pre):])
+            # directions (C01 / C05 consume only "a covering pair of points makes the program feasible")
+            t.prove("complete/every_covering_pair_is_feasible_for_the_program#%d" % i, z3.Implies(spec, rec["constraints"]), assumptions=rec["pc"][len(t.pre):])
+            t.prove("sound/every_feasible_point_is_a_covering_pair#%d" % i, z3.Implies(rec["constraints"], spec), assumptions=rec["pc"][len(t.pre):])
             t.prove("two_variables_only#%d" % i, z3.BoolVal(len(vs) == 2 * m))
 
         def goal(p):
@@ -180,6 +186,8 @@ def _ell_dom(m, K, slack_kind, tier="quick"):
             z, zp = vs[:m], vs[m:2 * m]
             spec = z3.And(ell_member(E1, z, m), ell_member(E2, zp, m))
             t.prove("feasible_set_is_Ell1xEll2#%d" % i, rec["constraints"] == spec, assumptions=rec["pc"][len(t.pre):])
+            # direction consumed by C01 / C05: the minimum is taken over (at least) every pair of points of the two regions
+            t.prove("sound/every_pair_of_region_points_is_feasible#%d" % i, z3.Implies(spec, rec["constraints"]), assumptions=rec["pc"][len(t.pre):])
         # along every path the programs are solved for facets 0,1,2,... in order, and the result is
         # False exactly at the first facet whose optimum is below -s_k, True if none is
         def goal(p):
